@@ -284,4 +284,92 @@ theorem Back.insert {P : Params} (hc : CodecOk P.codec) (hB : P.B < 2 ^ 24) {s :
   · rw [hi, h.fragHt]; rfl
   · exact { h with finv := h.finv.insertChunk _ new hnew, fragHt := rfl, cache := hco }
 
+theorem place_chunkOK (F : FSt) (x : Blk) (hne : x.data ≠ []) (c : UInt32) (k : Nat) :
+    ChunkOK (F.place x).1 ⟨(F.place x).2.1, (F.place x).2.2, x.data.length, c, k⟩ := by
+  unfold FSt.place
+  cases hop : F.opn with
+  | none => exact ⟨x.data, by simp [FSt.fragData, openBytes], by simp, length_pos_of_ne_nil hne⟩
+  | some fb => exact ⟨fb.data ++ x.data, by simp [FSt.fragData, openBytes], by simp, length_pos_of_ne_nil hne⟩
+
+theorem Acct.releaseOld {s : Proc} {g : Ghost} {k : Nat} (h : Acct s g (k + 1)) : Acct (releaseOldBlock s) g k := by
+  unfold Acct releaseOldBlock at *
+  simp only
+  omega
+
+/-- a fragment that was not found in the table is stored -/
+theorem Back.storeFrag {P : Params} (hP : P.ans = serialAns) (hc : CodecOk P.codec) (hB : P.B < 2 ^ 24)
+    {s : Proc} {g : Ghost} {F : FSt} {W : WSt} (h : Back P s g F W) (x : Blk) (hx : ItemOK P.B s.w.inodes.length x)
+    (hne : x.data ≠ []) (ho : g.done.foldl fOpen false = false) (k : Nat) (hacct : Acct s g (k + 1)) :
+    ∃ s' extra effs, BlockProc.storeFrag P s x = .ok s' ∧
+      Back P s' { g with items := g.items ++ extra, h := g.h ++ effs, m := g.m ++ effs } (F.store P x) W ∧
+      Acct s' { g with items := g.items ++ extra, h := g.h ++ effs, m := g.m ++ effs } k ∧
+      s'.fe = s.fe ∧ s'.maxBacklog = s.maxBacklog := by
+  obtain ⟨id, hid, hidn⟩ := hx.ino
+  obtain ⟨s2, extra, hmr, hb2, f1, f2, f3, f4, f5⟩ := h.makeRoom hP ho x.data.length
+  obtain ⟨hfi2, hfit⟩ := h.finv.makeRoom ho x.data.length
+  have hw2 : s2.w.inodes.length = s.w.inodes.length := by
+    have a := hb2.inodes
+    have b := h.inodes
+    have : s2.w.inodes.length = (applyEffs (List.replicate s2.w.inodes.length ({} : Inode)) g.h).length := by rw [← a]
+    rw [applyEffs_length] at this
+    -- both inode lists are `applyEffs … g.h` of a list of their own length; `makeRoom` does not touch `w`
+    unfold BlockProc.makeRoom at hmr
+    split at hmr
+    · split at hmr
+      · unfold enqueueBlock at hmr
+        split at hmr
+        · cases hmr
+        · simp only [Except.ok.injEq] at hmr; rw [← hmr]
+      · simp only [Except.ok.injEq] at hmr; rw [← hmr]
+    · simp only [Except.ok.injEq] at hmr; rw [← hmr]
+  obtain ⟨hb3, hidx, p1, p2, p3, p4, p5⟩ := hb2.place x hne hx.size hfit
+  have hck := place_chunkOK (F.makeRoom P x.data.length) x hne x.chk (x.flags &&& blkDontCompress)
+  obtain ⟨c', hins, hb4⟩ := hb3.insert hc hB x.data
+    ⟨((F.makeRoom P x.data.length).place x).2.1, ((F.makeRoom P x.data.length).place x).2.2, x.data.length, x.chk,
+      x.flags &&& blkDontCompress⟩ hck
+  have hb5 := hb4.addEffs x.inode (.fragLoc ((F.makeRoom P x.data.length).place x).2.1 ((F.makeRoom P x.data.length).place x).2.2)
+    (fun id' hid' => by
+      rw [hid] at hid'; cases hid'
+      show id < (placeFrag s2 x).1.w.inodes.length
+      have : (placeFrag s2 x).1.w.inodes.length = s2.w.inodes.length := by
+        unfold placeFrag; split <;> rfl
+      rw [this, hw2]; exact hidn)
+    (fun e he => Or.inl ⟨_, _, (mem_mkEff he).2⟩)
+  have hacct2 : Acct s2 { g with items := g.items ++ extra } (k + 1) := by
+    unfold Acct at *
+    simp only [List.length_append, f2, f3]
+    omega
+  refine ⟨?s', extra, mkEff x.inode (.fragLoc ((F.makeRoom P x.data.length).place x).2.1 ((F.makeRoom P x.data.length).place x).2.2), ?eq, ?rest⟩
+  case eq =>
+    unfold BlockProc.storeFrag
+    rw [hmr]
+    simp only
+    rw [hidx, hins]
+  case rest =>
+    simp only
+    cases hfb2 : s2.fragBlock with
+    | none =>
+      simp only
+      refine ⟨?_, ?_, ?_, ?_⟩
+      · exact hb5
+      · unfold Acct at *
+        simp only [p2, p3, p5, boolNat, if_true] at *
+        simp only [hfb2, Option.isSome_none, Bool.false_eq_true, if_false] at hacct2
+        simp only [List.length_append] at *
+        omega
+      · simp only [Proc.fe] at p1 f1 ⊢; rw [← f1, ← p1]
+      · rw [← f4, ← p4]
+    | some fb0 =>
+      simp only
+      refine ⟨?_, ?_, ?_, ?_⟩
+      · exact hb5.backlogIrrel _
+      · apply Acct.releaseOld
+        unfold Acct at *
+        simp only [p2, p3, p5, boolNat, if_true] at *
+        simp only [hfb2, Option.isSome_some, if_true] at hacct2
+        simp only [List.length_append] at *
+        omega
+      · simp only [releaseOldBlock, Proc.fe] at p1 f1 ⊢; rw [← f1, ← p1]
+      · simp only [releaseOldBlock]; rw [← f4, ← p4]
+
 end Sqfs.BlockProc
